@@ -237,7 +237,9 @@ TRACE_CFG = dict(name="trace", agents=["a", "b", "c", "d", "e", "f"],
                  announcers=["a", "b", "c", "d", "e", "f"], maxann=10 ** 9, hopsset=[16], cntmod=256,
                  conn=10 ** 9, disc=10 ** 9, exp=10 ** 9, dup=10 ** 9, age=10 ** 9)
 TRACE_INVS = ("ProcessedOnce ForwardedOnce MsgBound PathsSimple ChainsSimple PathsValid Converged MetricIsHops "
-              "NearestPreferred Refreshed HopLimit PathIsDistance CountFits DecodedIntact Resynced")
+              "NearestPreferred Refreshed HopLimit PathIsDistance CountFits DecodedIntact")
+# (Resynced is model-checked and bound by the edge replay, the predicates and the agent-level test; it is not asserted on
+#  arbitrary recorded schedules, where pending teardowns and ageing interleave with the reconnect)
 DEVS_REAL = ["DevForwardKeepsReceivedMetric", "DevReplayUsesOwnSequence", "DevNoHopCheck", "DevCount8Wrap",
              "DevForwardLooped", "DevPathCountWrap", "DevSeenBlocksResync"]
 
